@@ -78,6 +78,34 @@ def segment_size(F, R):
                     ok = False
             R.ob('POLY', key, ok, 'segment size = %s ; required >= size*number_of_chunks + align - 1 (worst-case start alignment)' % s_, sz[0].where, f)
 
+def sizing_argument_roles(F, R):
+    """The sizing functions take several usize quantities; at every call site each argument is the quantity the parameter stands for
+    (a loan limit for the loaned-data parameter, an active-request limit for the active-requests parameter): two swapped usize
+    arguments type-check and size the segment for the wrong worst case."""
+    ROLE = {
+        'required_amount_of_chunks_per_client_data_segment': [('loan', r'max_loaned'), ('active requests', r'max_active_requests')],
+        'required_amount_of_chunks_per_server_data_segment': [('loan', r'max_loaned')],
+        'required_amount_of_samples_per_data_segment': [('loan', r'max_loaned')],
+    }
+    n = 0
+    ordinal = {}
+    for s_ in F.callers_of(r'StaticConfig::(required_amount_of_chunks_per_(client|server)_data_segment|required_amount_of_samples_per_data_segment)$'):
+        if not s_.fn.id.startswith('iceoryx2::port::'):
+            continue
+        nm = s_.callee.rsplit('::', 1)[-1]
+        f = s_.fn
+        k0 = (f.id, nm)
+        ordinal[k0] = ordinal.get(k0, -1) + 1
+        nm_k = '%s#%d' % (nm, ordinal[k0])
+        for i, (role, pat) in enumerate(ROLE[nm]):
+            t = sym_nstr(sym(f, s_.args[1 + i]))
+            others = [p_ for j, (_, p_) in enumerate(ROLE[nm]) if j != i]
+            ok = re.search(pat, t) is not None and not any(re.search(o, t) for o in others)
+            n += 1
+            R.ob('FLOW', 'FLOW::%s::%s::argument-%d-is-the-%s-limit' % (fnkey(f), nm_k, i + 1, role.replace(' ', '-')), ok, '%s(.., arg%d = %s): the parameter is the %s limit' % (nm, i + 1, t[:100], role), s_.where, f)
+    R.floor('sizing-function arguments checked for their role', n, 8)
+
+
 def formula_source(f, operand):
     """Alternatives of the chunk count: through the documented preallocate-override hook and through match phis."""
     t = sym(f, operand)
@@ -227,6 +255,7 @@ def error_variants(F, R):
 
 
 def check(F, R, tier):
+    sizing_argument_roles(F, R)
     lib.flavour_siblings(R, F, r'^iceoryx2::service::builder::(publish_subscribe|request_response)::Builder::<.*>::(create|open|open_or_create)(_with_attributes)?$', 'SIBLINGS', 'the QoS settings a service is created with are prepared (zero values normalised, type details) the same way for every payload flavour', floor=24)
     formulas(F, R)
     formula_flow(F, R)
